@@ -181,6 +181,8 @@ impl<'tcx> Cpp2Formatter<'tcx> {
             Some(SpecialMethod::SubAssign) => "operator-=".into(),
             Some(SpecialMethod::MulAssign) => "operator*=".into(),
             Some(SpecialMethod::DivAssign) => "operator/=".into(),
+            // `diplomat::next_to_iter_helper`, which begin() of an iterable type returns, calls `next()`
+            Some(SpecialMethod::Iterator) => "next".into(),
             Some(_) | None => {
                 self.fmt_identifier(method.attrs.rename.apply(method.name.as_str().into()))
             }
